@@ -15,3 +15,9 @@ pub assume_specification [<String as PartialEq<str>>::eq] (a: &String, b: &str) 
     ensures r == (a@ == b@);
 pub assume_specification [<str as PartialEq<str>>::eq] (a: &str, b: &str) -> (r: bool)
     ensures r == (a@ == b@);
+/// R-strmatch helper: `Some("lit")` pattern on an Option<&str>
+#[verifier::external_body]
+pub fn opt_str_is(o: Option<&str>, s: &str) -> (r: bool) ensures r == (o is Some && o->Some_0@ == s@) { unimplemented!() }
+/// R-asderef: Option<String>::as_deref()
+#[verifier::external_body]
+pub fn opt_as_str(o: &Option<String>) -> (r: Option<&str>) ensures (o is Some) == (r is Some), o is Some ==> r->Some_0@ == o->Some_0@ { unimplemented!() }
